@@ -190,6 +190,13 @@ struct FnEmitter {
         if (VD->hasGlobalStorage() && !VD->isStaticLocal()) O["glob"] = true;
         if (auto *PV = dyn_cast<ParmVarDecl>(VD)) O["pi"] = (int)PV->getFunctionScopeIndex();
         O["dt"] = typeStr(C, VD->getType());
+        // named integral constants: `const T k = <constant expression>` -> cv (so that rules see through a literal given a name)
+        if (!isa<ParmVarDecl>(VD) && VD->getType().isConstQualified() && VD->getType()->isIntegralOrEnumerationType() &&
+            !VD->getType()->isReferenceType() && VD->getAnyInitializer() && !VD->getAnyInitializer()->isValueDependent()) {
+          Expr::EvalResult R;
+          if (VD->getAnyInitializer()->EvaluateAsInt(R, *C.AC, Expr::SE_NoSideEffects))
+            putInt(O, "cv", R.Val.getInt());
+        }
       }
       if (auto *F = dyn_cast<FunctionDecl>(D)) {
         std::string M = mangled(C, F);
